@@ -6,7 +6,7 @@ use futures::TryStreamExt;
 
 use super::*;
 use crate::array::{
-    Array, ArrayBuilder, ArrayBuilderImpl, ArrayImpl, BoolArrayBuilder, DataChunk,
+    Array, ArrayBuilder, ArrayBuilderImpl, BoolArrayBuilder, DataChunk,
     DataChunkBuilder, RowRef,
 };
 use crate::types::{DataType, DataValue};
@@ -49,7 +49,7 @@ impl NestedLoopJoinExecutor {
                     let values = left_row.values().chain(right_row.values());
                     if let Some(chunk) = builder.push_row(values) {
                         // evaluate filter bitmap
-                        let ArrayImpl::Bool(a) = Evaluator::new(&self.condition).eval(&chunk)?
+                        let Some(a) = Evaluator::new(&self.condition).eval(&chunk)?.as_bool_operand()
                         else {
                             panic!("join condition should return bool");
                         };
@@ -68,7 +68,7 @@ impl NestedLoopJoinExecutor {
         // take rest of data
         if let Some(chunk) = builder.take() {
             // evaluate filter bitmap
-            let ArrayImpl::Bool(a) = Evaluator::new(&self.condition).eval(&chunk)? else {
+            let Some(a) = Evaluator::new(&self.condition).eval(&chunk)?.as_bool_operand() else {
                 panic!("join condition should return bool");
             };
             yield chunk.filter(a.true_array());
@@ -154,7 +154,7 @@ impl NestedLoopSemiJoinExecutor {
                     let left_chunk = self.left_row_to_chunk(&left_row, right_chunk.cardinality());
                     let join_chunk = left_chunk.row_concat(right_chunk.clone());
                     // evaluate filter bitmap
-                    let ArrayImpl::Bool(a) = Evaluator::new(&self.condition).eval(&join_chunk)?
+                    let Some(a) = Evaluator::new(&self.condition).eval(&join_chunk)?.as_bool_operand()
                     else {
                         panic!("join condition should return bool");
                     };
